@@ -37,6 +37,15 @@ fn with_marathon(mut out: Outcome, p: &Params, prop: &'static str) -> Outcome {
     out
 }
 
+/// histories whose operations run on three worker threads in turn, one at a time (runners_migrate.rs)
+fn with_migrate(mut out: Outcome, p: &Params, prop: &'static str) -> Outcome {
+    if p.part != "seq" || p.san() {
+        // (threads are involved: counted with the thread parts, which is what the TSan / Miri passes run)
+    }
+    out.merge(eyeball_verif::runners_migrate::run_migrate(p, prop));
+    out
+}
+
 /// two adapters driven by one limit observable (runners_pairs.rs)
 fn with_pairs(mut out: Outcome, p: &Params, prop: &'static str) -> Outcome {
     out.merge(eyeball_verif::runners_pairs::run_pairs(p, prop));
@@ -46,13 +55,13 @@ fn with_pairs(mut out: Outcome, p: &Params, prop: &'static str) -> Outcome {
 fn spec(id: &str) -> Option<Spec> {
     Some(match id {
         "C01" => Spec {
-            run: |p| with_marathon(with_unwind(runners_thr::run_c01(p), p, "C01"), p, "C01"),
+            run: |p| with_migrate(with_marathon(with_unwind(runners_thr::run_c01(p), p, "C01"), p, "C01"), p, "C01"),
             level: "exploration",
             rule: "call histories on the real Observable / SharedObservable (sync flavour) with a payload whose hash ignores one field; every return value and every poll result is compared with a version-counter model (value, version, per-subscriber observed version). Exhaustive over short sequences of the ~35-operation state-dependent alphabet, random long histories with <=5 subscribers, <=4 clones, write/read guards; plus a director scenario (subscribe + first poll on one thread || write accesses that do not notify on another, every order at the pause points). Non-trivial = the history contains a Ready poll, a Pending poll and a conditional setter that did not store; distinct = hash of the history.",
             assumptions: BASE_ASSUME,
         },
         "C16" => Spec {
-            run: |p| with_marathon(with_unwind(runners_thr::run_c16(p), p, "C16"), p, "C16"),
+            run: |p| with_migrate(with_marathon(with_unwind(runners_thr::run_c16(p), p, "C16"), p, "C16"), p, "C16"),
             level: "exploration",
             rule: "the C01/C02/C03 histories executed on the async-lock flavour with every future driven by a hand-rolled executor, judged by the same model and compared call by call with the sync run of the same history; plus randomised guard scripts (write guard held across subscriber polls; read guard held while writers wait) with their own oracle. Non-trivial = Ready and Pending polls both observed (histories), or the script ran to its end (scripts); distinct = hash of (flavour, history) / of the script log.",
             assumptions: BASE_ASSUME,
@@ -64,43 +73,43 @@ fn spec(id: &str) -> Option<Spec> {
             assumptions: BASE_ASSUME,
         },
         "C19" => Spec {
-            run: |p| with_marathon(with_unwind(runners_obs::run_c19(p), p, "C19"), p, "C19"),
+            run: |p| with_migrate(with_marathon(with_unwind(runners_obs::run_c19(p), p, "C19"), p, "C19"), p, "C19"),
             level: "exploration",
             rule: "histories of clone / subscribe / subscriber clone / downgrade / upgrade / weak clone / into_shared / drops (plus sets and polls) on both lock flavours; after every single operation observable_count, subscriber_count, strong_count, weak_count of every live handle are compared with integer counters. Non-trivial = at least two count checks and one subscriber; distinct = hash of (flavour, history).",
             assumptions: BASE_ASSUME,
         },
         "C02" => Spec {
-            run: |p| with_marathon(runners_thr::run_c02(p), p, "C02"),
+            run: |p| with_migrate(with_marathon(runners_thr::run_c02(p), p, "C02"), p, "C02"),
             level: "exploration",
             rule: "(a) operation granularity: call histories on Observable/SharedObservable with up to 3 subscribers; after every single operation every subscriber whose last poll was Pending must have had that poll's waker woken if a notifying update or the close happened since; exhaustive short sequences + random. (b) threads: director scenarios (poll || set, poll || close, two polls || set, poll || drop-non-last-then-set, poll || set || close, for the unique and the shared observable) re-executed for every order in which the roles pass the pause points (incl. the clone of the supplied waker), verdict at join from poll results and wake flags only; plus free-running rounds (writers and subscribers on park/unpark executors, hook-injected yields) with the timing-free quiescence oracle. Non-trivial = a wake obligation was evaluated (a), a distinct executed schedule (b), a round with at least one Pending poll (free); distinct = hash of history / schedule trace / round.",
             assumptions: BASE_ASSUME,
         },
         "C03" => Spec {
-            run: |p| with_marathon(with_unwind(runners_thr::run_c03(p), p, "C03"), p, "C03"),
+            run: |p| with_migrate(with_marathon(with_unwind(runners_thr::run_c03(p), p, "C03"), p, "C03"), p, "C03"),
             level: "exploration",
             rule: "(a) histories of clone / drop / downgrade / upgrade / weak clone / into_shared / subscribe / set / poll against an owner-count model: poll is None iff no owner exists (also after reset, repeatedly), upgrade succeeds iff an owner exists, get/read return the last value after the end; exhaustive short sequences + random. (b) director scenarios: two and three threads dropping the last clones, last drop || upgrade (then set through the upgraded handle), drop || upgrade || poll - every order at sdrop:enter, sdrop:decided, upgrade:between, close:*, poll:*; verdict at join: every subscriber ended iff no handle is left. (c) free-running rounds. Non-trivial / distinct as C02.",
             assumptions: BASE_ASSUME,
         },
         "C04" => Spec {
-            run: runners_thr::run_c04,
+            run: |p| with_migrate(runners_thr::run_c04(p), p, "C04"),
             level: "exploration",
             rule: "recorded histories of 2-4 real threads (call/return ticks from one atomic clock, per-thread logs merged after join) checked offline: W1 register with unique values (set returns its predecessor => total order reconstructed exactly; real-time order, no stale/early reads, conditional setters store exactly when different, contended ids), W2 append-only list (no lost closure, per-thread and real-time order, every read a prefix within completed/invoked bounds, subscribers monotone and handed the final value), W3 read/write guards exclude complete operations; plus the lock-exclusion invariant evaluated by the director in every forced schedule. Non-trivial = a round that recorded events / a distinct schedule; distinct = hash of (workload, round seed, event count) / schedule trace.",
             assumptions: BASE_ASSUME,
         },
         "C20" => Spec {
-            run: runners_misc::run_c20,
+            run: |p| with_migrate(runners_misc::run_c20(p), p, "C20"),
             level: "exploration",
             rule: "bulk random histories of the vector engine (streams dropped mid-batch, while lagging, after the vector), the adapter engine (chains of 1-3 stages, both flavours) and the observable engine (both lock flavours, into_shared with and without subscribers); every element is a Tracked value whose construction, clones and drops are recorded in a table keyed by instance id: no double drop, no use after drop, table empty once everything of the history is gone. Non-trivial = the history published at least one message / diff / update; distinct = hash of the history. The same workload runs under Miri (leak check, tree borrows) and under ASan/LSan, see sanitizer_passes.",
             assumptions: BASE_ASSUME,
         },
         "C05" => Spec {
-            run: |p| with_pairs(with_marathon(with_unwind(runners_vec::run_c05(p), p, "C05"), p, "C05"), p, "C05"),
+            run: |p| with_migrate(with_pairs(with_marathon(with_unwind(runners_vec::run_c05(p), p, "C05"), p, "C05"), p, "C05"), p, "C05"),
             level: "exploration",
             rule: "histories = initial vector + source operations + subscriptions + polls on a real ObservableVector<Tracked>; exhaustive short sequences and seeded random long ones. After every mutating call a reference batched subscriber is polled (one item per message); every other subscriber's items are compared with the undelivered messages. Non-trivial = at least 2 messages published and both a Ready and a Pending poll observed; distinct = hash of (capacity, initial vector, operation list).",
             assumptions: BASE_ASSUME,
         },
         "C06" => Spec {
-            run: |p| with_marathon(with_unwind(runners_thr::run_c06(p), p, "C06"), p, "C06"),
+            run: |p| with_migrate(with_marathon(with_unwind(runners_thr::run_c06(p), p, "C06"), p, "C06"), p, "C06"),
             level: "exploration",
             rule: "as C05 with capacities 1,2,3,5,6,16,1000 and lazy polling patterns; the harness counts undelivered messages per subscriber. Non-trivial = a Reset was delivered or a subscriber was polled with a backlog of at least capacity-1 messages; distinct = hash of the history. A run without any Reset is INCONCLUSIVE. Plus a cross-thread variant (writer thread, every subscriber stream on its own park/unpark thread): a stream that is Pending after the writer finished, and not woken, must hold the vector's contents; at the end every replica equals the final contents.",
             assumptions: BASE_ASSUME,
@@ -112,7 +121,7 @@ fn spec(id: &str) -> Option<Spec> {
             assumptions: BASE_ASSUME,
         },
         "C08" => Spec {
-            run: |p| with_unwind(runners_thr::run_c08(p), p, "C08"),
+            run: |p| with_migrate(with_unwind(runners_thr::run_c08(p), p, "C08"), p, "C08"),
             level: "exploration",
             rule: "history, then drop of the ObservableVector, then every stream drained to None; plus a cross-thread variant (vector on one thread, every subscriber stream on its own park/unpark thread, hook-injected yields) whose verdict is taken at join. Non-trivial = a stream ended after having been pending (woken by the drop), behind, lagged or in the middle of a batch; distinct = hash of the history.",
             assumptions: BASE_ASSUME,
@@ -148,7 +157,7 @@ fn spec(id: &str) -> Option<Spec> {
             assumptions: BASE_ASSUME,
         },
         "C14" => Spec {
-            run: |p| with_marathon(with_pairs(runners_adp::run_c14(p), p, "C14"), p, "C14"),
+            run: |p| with_migrate(with_marathon(with_pairs(runners_adp::run_c14(p), p, "C14"), p, "C14"), p, "C14"),
             level: "exploration",
             rule: "every poll of the observed stream gets a fresh flag waker; whenever a poll is Ready (item or end) and the previous poll was Pending, the previous poll's waker must have been woken; evaluated in 'drain after every operation' and in lazy mode, for the plain stream, every adapter and random chains, with source updates, limit changes, limit-stream end and drop of the source as inputs. Non-trivial = at least one such implication was evaluated and the stream emitted something; distinct = hash of the history.",
             assumptions: BASE_ASSUME,
@@ -172,6 +181,15 @@ fn spec(id: &str) -> Option<Spec> {
             },
             level: "exploration",
             rule: "debug entry: the marathons alone, judged for the property named by UNWIND_PROP",
+            assumptions: BASE_ASSUME,
+        },
+        "MIGRATE" => Spec {
+            run: |p| {
+                let prop: &'static str = Box::leak(std::env::var("UNWIND_PROP").unwrap_or("C01".into()).into_boxed_str());
+                eyeball_verif::runners_migrate::run_migrate(p, prop)
+            },
+            level: "exploration",
+            rule: "debug entry: the thread-migration histories alone, judged for the property named by UNWIND_PROP",
             assumptions: BASE_ASSUME,
         },
         "UNWIND" => Spec {
